@@ -24,6 +24,7 @@ type workload struct {
 	Big     int
 	Hash    string
 	Saves   int
+	Jumbo   int // entries of the last save that got 40-70 KB commands
 }
 
 // genWorkload draws a workload: mostly SaveRaftState (appends, suffix
@@ -31,6 +32,36 @@ type workload struct {
 // snapshots), snapshot records, RemoveEntriesTo (+ CompactEntriesTo), bootstrap
 // records and - in some - a clean close/reopen in the middle.
 func genWorkload(seed int64, fl flavour, no int, nOps int) *workload {
+	w := genWorkloadJ(seed, fl, no, nOps, -1)
+	if no%2 == 1 {
+		// jumbo save: the entries of the last SaveRaftState that appends something
+		// get commands of 40-70 KB, so that one saved record spans several 32 KB
+		// blocks of a Tan log file / a large Pebble batch. Every file-system
+		// operation of the last save is a fault point in the quick tier too.
+		// (generated again from the same PRNG stream with that op enlarged, so
+		// that the reference models agree with the ops)
+		for i := len(w.Ops) - 1; i >= 0; i-- {
+			if w.Ops[i].Kind == "save" && jumboCandidates(w.Ops[i]) > 0 {
+				return genWorkloadJ(seed, fl, no, nOps, i)
+			}
+		}
+	}
+	return w
+}
+
+func jumboCandidates(o op) int {
+	n := 0
+	for _, ud := range o.Updates {
+		for _, e := range ud.EntriesToSave {
+			if e.Type != pb.ConfigChangeEntry {
+				n++
+			}
+		}
+	}
+	return n
+}
+
+func genWorkloadJ(seed int64, fl flavour, no int, nOps int, jumboAt int) *workload {
 	rng := rand.New(rand.NewSource(seed*1000003 + int64(no)*7919 + int64(len(fl.name))))
 	w := &workload{Flavour: fl.name, No: no}
 	w.LogSize = []int64{1200, 3000, 9000}[rng.Intn(3)]
@@ -54,6 +85,19 @@ func genWorkload(seed int64, fl flavour, no int, nOps int) *workload {
 		if o.Kind == "save" {
 			w.Saves++
 		}
+		if len(w.Ops) == jumboAt {
+			jr := rand.New(rand.NewSource(seed*31 + int64(no)))
+			for u := range o.Updates {
+				es := o.Updates[u].EntriesToSave
+				for e := range es {
+					if w.Jumbo < 3 && es[e].Type != pb.ConfigChangeEntry {
+						es[e].Cmd = make([]byte, 40000+jr.Intn(30000))
+						jr.Read(es[e].Cmd)
+						w.Jumbo++
+					}
+				}
+			}
+		}
 		applyToModel(s.m, o)
 		w.Ops = append(w.Ops, o)
 		w.Models = append(w.Models, s.m.clone())
@@ -63,7 +107,7 @@ func genWorkload(seed int64, fl flavour, no int, nOps int) *workload {
 		sb.WriteString(o.String())
 		sb.WriteByte('\n')
 	}
-	w.Hash = common.Hash(fl.name, sb.String())
+	w.Hash = common.Hash(fl.name, sb.String(), w.Jumbo)
 	return w
 }
 
